@@ -490,6 +490,22 @@ func genValueUint(n *node) func(*frame) (reflect.Value, uint64) {
 	return nil
 }
 
+// genValueShiftCount is genValueUint for the right operand of a shift: as in compiled
+// code, a negative count of signed integer type triggers a run-time panic.
+func genValueShiftCount(n *node) func(*frame) (reflect.Value, uint64) {
+	switch n.typ.TypeOf().Kind() {
+	case reflect.Int, reflect.Int8, reflect.Int16, reflect.Int32, reflect.Int64:
+		value := genValue(n)
+		return func(f *frame) (reflect.Value, uint64) {
+			v := value(f)
+			i := v.Int()
+			_ = 0 << i // Panics with "runtime error: negative shift amount" if i < 0.
+			return v, uint64(i)
+		}
+	}
+	return genValueUint(n)
+}
+
 func genValueFloat(n *node) func(*frame) (reflect.Value, float64) {
 	value := genValue(n)
 
